@@ -149,6 +149,19 @@ Proof.
   destruct (tm ts); simpl in *. unfold no_timers. congruence.
 Qed.
 
+(* once the connection has been given back (response complete, or the request failed) no timer of the request
+   is armed - whatever the order of end of body, pause/resume, body-written and read events was *)
+Lemma released_no_timers g tr s t :
+  0 < u g -> Forall wf_event tr -> run g init tr = Some s -> live (pcs (tasks s t)) = false ->
+  tm (tasks s t) = no_timers /\ ~ In t (acq s) /\ writer (tasks s t) = false.
+Proof.
+  intros Hu W H L. destruct (reach_all g tr s Hu W H) as [I Ti]. repeat split.
+  - apply (dead_no_timers g (now s)); [apply Ti|assumption].
+  - intro X. apply (i_acq _ _ I) in X. unfold pc_of in X.
+    destruct (pcs (tasks s t)) as [| | | | |[|]| | |]; simpl in *; discriminate.
+  - apply (l_quiet _ (i_local _ _ I t)). destruct (pcs (tasks s t)) as [| | | | |[|]| | |]; simpl in *; auto; discriminate.
+Qed.
+
 Lemma residue g tr s t f a :
   0 < u g -> Forall wf_event tr -> run g init tr = Some s -> pcs (tasks s t) = PFailed f a ->
   ~ In t (acq s) /\ ~ In t (waiters s) /\ writer (tasks s t) = false /\ tm (tasks s t) = no_timers /\
@@ -199,7 +212,7 @@ Qed.
 
 Lemma step_failed_cause g s e s' t f a :
   Inv s -> step g s e = Some s' -> pcs (tasks s' t) = PFailed f a ->
-  pcs (tasks s t) = PFailed f a \/ (cause t f e /\ a = now s /\ live (pcs (tasks s t)) = true).
+  pcs (tasks s t) = PFailed f a \/ (cause t f e /\ a = now s /\ pending (pcs (tasks s t)) = true).
 Proof.
   intros I H P. destruct (option_eq_dec_task (ev_task e) (Some t)) as [E|N].
   - pose proof (step_own g s e s' t H E) as O. right.
@@ -212,14 +225,15 @@ Proof.
       try (match type of P with pcs (to_headers ?o ?c ?n) = _ =>
              destruct (to_headers_fields o c n) as [X _]; rewrite X in P; discriminate end);
       try (match type of P with pcs (read_ts ?o ?n) = _ => unfold read_ts in P; destruct (paused o); discriminate end);
+      try (match type of P with pcs (ended_ts ?o ?r) = _ => destruct r; discriminate end);
       try (exfalso; match goal with Hc : has_conn (pcs (tasks s t)) = true |- _ => rewrite P in Hc; discriminate end);
       try (exfalso; match goal with Hc : pcs (tasks s t) = _ |- _ => rewrite Hc in P; discriminate end);
       simpl in E; injection E as ->; injection P as <- <-.
     + unfold cause. repeat split; auto.
-      match goal with H : pcs (tasks s t) = _ |- _ => rewrite H end. reflexivity.
+      match goal with H : pcs (tasks s t) = _ \/ pcs (tasks s t) = _ |- _ => destruct H as [H|H]; rewrite H end; reflexivity.
     + unfold cause. repeat split; auto.
     + match goal with H : _ \/ _ |- _ => destruct H as [[-> [-> A]]|[[-> [-> A]]|[[-> [-> A]]|[-> [-> A]]]]] end;
-        (split; [right; left; eexists; split; reflexivity|split; [reflexivity|]]).
+        (split; [right; left; eexists; split; reflexivity|split; [reflexivity|apply live_pending]]).
       * now apply awaiting_live.
       * apply awaiting_live. now apply connecting_awaiting.
       * rewrite A. reflexivity.
@@ -329,5 +343,5 @@ Proof. intro H. apply step_bystander. apply (reach_inv g tr s H). Qed.
 
 Lemma failure_stamped_now g tr s e s' t f a :
   run g init tr = Some s -> step g s e = Some s' -> pcs (tasks s' t) = PFailed f a ->
-  pcs (tasks s t) = PFailed f a \/ (cause t f e /\ a = now s /\ live (pcs (tasks s t)) = true).
+  pcs (tasks s t) = PFailed f a \/ (cause t f e /\ a = now s /\ pending (pcs (tasks s t)) = true).
 Proof. intro H. apply step_failed_cause. apply (reach_inv g tr s H). Qed.
